@@ -551,6 +551,14 @@ def generate(rng, tier):
             vals = sorted(vs)
         for v in vals:
             yield Case(["bf.try_new\t%s\t%d" % (t, v), "bf.try_from\t%s\t%d" % (t, v)], {"k": "new", "t": t, "v": v})
+    # the one setter that computes a bounded value from a length (`MacsecHeader::set_payload_len`, shared with
+    # C14): the short length it stores has to be a 6 bit value - the announced length, or 0 when that does not fit
+    from . import c14
+    for ptype in c14.MACSEC_PTYPES:
+        for sci in (False, True):
+            hdr = c14.macsec_hdr(rng, ptype, sci)
+            for n in list(range(0, 70)) + [126, 127, 128, 129, 191, 192, 254, 255, 256, 257, 319, 320, 65535, 65536]:
+                yield Case(["set.macsec.set_payload_len\t%s\t%d" % (hx(hdr), n)], {"k": "macsec_spl", "hdr": hx(hdr), "n": n})
     # the public constants of the bounded types (ZERO / MAX / value tables / RFC code points): each has to be
     # the in-range value its name says
     yield Case(["impl.bf.consts"], {"k": "consts"})
@@ -736,6 +744,15 @@ def oracle(c):
                 if c.impl[i] != want:
                     out.append(("range-accept", {"line": c.lines[i], "got": c.impl[i], "want": want}))
                     break
+        elif k == "macsec_spl":
+            o = c.impl[0] or ""
+            hdr = bytes.fromhex(c.meta["hdr"])
+            n = c.meta["n"] + (2 if (hdr[0] & 0x0C) == 0 else 0)
+            want = n if n <= 63 else 0
+            import re as _re
+            m = _re.search(r"hdr=([0-9a-f]+);sl=(\d+);", o)
+            if not m or int(m.group(2)) != want or int(m.group(2)) > 63 or bytes.fromhex(m.group(1))[1] != want:
+                out.append(("value-out-of-range" if m and int(m.group(2)) > 63 else "range-accept", {"line": c.lines[0], "got": o[:200], "want_short_len": want}))
         elif k == "consts":
             got = dict(x.split("=", 1) for x in (c.impl[0] or "").split(",") if "=" in x)
             for name, want in sorted(CONSTS.items()):
